@@ -23,29 +23,6 @@ namespace {
 
 #include "stats.inc"
 
-struct ByteSrc: Src
-{
-    const uint8_t *d;
-    size_t n, pos = 0;
-    ByteSrc(const uint8_t *data, size_t size)
-        : d(data)
-        , n(size)
-    {
-    }
-    bool exhausted() const override { return pos >= n; }
-protected:
-    uint64_t raw(uint64_t radix) override
-    {
-        size_t w = radix <= 256 ? 1 : (radix <= 65536 ? 2 : 4);
-        uint64_t v = 0;
-        for (size_t i = 0; i < w; ++i) {
-            v |= static_cast<uint64_t>(pos < n ? d[pos] : 0) << (8 * i);
-            ++pos;
-        }
-        return v % radix;
-    }
-};
-
 bool gInit = false;
 bool gFlushed = false;
 
